@@ -449,3 +449,8 @@ def run_cases(ctx, mon, cases, run_case, time_bound=None):
                 raise
         mon.end_case()
     return n
+
+
+def pick(rng, seq):
+    """Uniform choice that keeps Python ints exact (numpy's rng.choice converts big ints to float)."""
+    return seq[int(rng.integers(0, len(seq)))]
